@@ -165,7 +165,7 @@ def decode(d):
 
 
 def parts(tier):
-    n = 4000 if tier == "quick" else 20000
+    n = 8000 if tier == "quick" else 20000
     return [core.Part("documents", "sampled", lambda: gen.cases(decode, 1536), budget=n)]
 
 
